@@ -4,12 +4,17 @@ import html
 import os
 import re
 import subprocess
+import sys
 
 from vcommon import (REPO, VERIF, LEAN, GUARD, BuildError, flock, repo_includes,
                      run, write_if_changed)
 
 GEN = os.path.join(VERIF, "tools", "gen")
 OUT = os.path.join(LEAN, "OvniModel", "Generated")
+CLANG = os.environ.get("VERIF_CLANG", "clang-14")
+
+sys.path.insert(0, GEN)
+import gen_handlers  # noqa: E402
 
 # model dir, Lean namespace, table symbol in event.c (None = switch-based
 # handler, no table), has SET action, model_spec symbol
@@ -95,9 +100,24 @@ def generate(bdir):
             src = hdr + f"namespace Ovni.Generated.{ns}\n" + body + f"end Ovni.Generated.{ns}\n"
             changed[ns] = write_if_changed(os.path.join(OUT, ns + ".lean"), src)
             imports.append(f"import OvniModel.Generated.{ns}")
+        # handler facts (guards, category switches, lint channel, connect-time
+        # values, probe) from clang's AST of every event.c / setup.c
+        _facts, hsrc = handlers_facts(bdir)
+        changed["Handlers"] = write_if_changed(os.path.join(OUT, "Handlers.lean"), hsrc)
+        imports.append("import OvniModel.Generated.Handlers")
         allsrc = hdr + "\n".join(imports) + "\n"
         changed["All"] = write_if_changed(os.path.join(OUT, "All.lean"), allsrc)
     return changed
+
+
+def handlers_facts(bdir):
+    """(facts, Lean source) of tools/gen/gen_handlers.py on /repo's current
+    sources (cached inside the content-hashed build directory)."""
+    cargs = ["-std=gnu11", f"-D{GUARD}", "-D_POSIX_C_SOURCE=200809L"] + repo_includes(bdir)
+    try:
+        return gen_handlers.generate(REPO, cargs, os.path.join(bdir, "gen"), clang=CLANG)
+    except gen_handlers.GenError as e:
+        raise BuildError(str(e))
 
 
 def ovnievents_list(bdir):
@@ -154,6 +174,77 @@ def translator_selfcheck(bdir):
         if sorted(g) != sorted(o):
             d = set(g) ^ set(o)
             bad.append(f"model {mdir}: generated evlist differs from ovnievents: {sorted(d)[:4]}")
+    bad += handlers_selfcheck(bdir, ev)
+    return bad
+
+
+def handlers_selfcheck(bdir, ev=None):
+    """The generated handler facts (Generated/Handlers.lean) against the
+    generated tables and against what `ovnievents` prints:
+      * nothing unresolved; the model character tested by model_<m>_event is
+        the model's; a model with an event table has a function indexing it;
+      * every table row's category is a `case` routed to a function that
+        indexes the table, or the handler has no category switch;
+      * every event `ovnievents` lists is recognised by the generated
+        dispatch (category case -> table row / value switch / value test /
+        no inspection), and every `case` of a category switch has at least
+        one listed event."""
+    bad = []
+    if ev is None:
+        ev = ovnievents_list(bdir)
+    facts, _src = handlers_facts(bdir)
+    tabs = load_tables()
+    names = {mdir: lname for mdir, lname, _t in gen_handlers.MODELS}
+    for mdir, ns, table, _hs, _spec in MODELS:
+        f = facts[names[mdir]]
+        t = tabs[mdir]
+        who = f"handlers {mdir}"
+        for u in f["unresolved"]:
+            bad.append(f"{who}: unresolved: {u}")
+        if f["evChar"] != t["char"]:
+            bad.append(f"{who}: model_{mdir}_event tests model character {f['evChar']}, model_spec says {t['char']}")
+        if (table or "") != f["table"]:
+            bad.append(f"{who}: table symbol {f['table']!r} differs from the table translator's {table!r}")
+        if table and not f["tableFns"]:
+            bad.append(f"{who}: no function indexes {table}")
+        cat = [s for s in f["switches"] if s["on"] == "c" and s["fn"] == f["handler"]]
+        if not cat and not f["directTable"]:
+            bad.append(f"{who}: neither a category switch nor a direct table lookup")
+        cases = {c["label"]: c for c in (cat[0]["cases"] if cat else [])}
+        vsw = {s["fn"]: [c["label"] for c in s["cases"]] for s in f["switches"] if s["on"] == "v"}
+        vts = {n: vs for n, vs in f["valueTests"]}
+        rows = {(r[0], r[1]) for r in t["table"] if r[3] != 0}
+        # table rows are reachable
+        for (c, v) in sorted(rows):
+            if f["directTable"]:
+                continue
+            k = cases.get(c)
+            if k is None or k["callee"] not in f["tableFns"]:
+                bad.append(f"{who}: table row {chr(c)}{chr(v)} but category {chr(c)!r} is not routed to "
+                           f"{'/'.join(f['tableFns']) or 'a table function'}")
+                break
+
+        def accepts(c, v):
+            if f["directTable"]:
+                return (c, v) in rows
+            k = cases.get(c)
+            if k is None:
+                return False
+            if k["callee"] in f["tableFns"]:
+                return (c, v) in rows
+            if k["callee"] in vsw:
+                return v in vsw[k["callee"]]
+            if k["callee"] in vts:
+                return v in vts[k["callee"]]
+            return True
+        listed = [(ord(s[1]), ord(s[2])) for s, _d in ev.get(mdir, []) if len(s) >= 3]
+        miss = [chr(c) + chr(v) for (c, v) in listed if not accepts(c, v)]
+        if miss:
+            bad.append(f"{who}: ovnievents lists {miss[:6]} which the generated dispatch does not recognise")
+        lc = {c for c, _v in listed}
+        dead = [chr(c) for c in cases if c not in lc]
+        if dead:
+            bad.append(f"{who}: category cases {dead} have no event in ovnievents' list")
     return bad
 
 
